@@ -155,6 +155,32 @@ var c20URIs = []string{"/", "/dir/index.html", "/a/b?x=1&y=2", "/p?q=a%20b", "/?
 type c20Run struct {
 	identity bool // identity hash + injected entropy (full prediction)
 	h2       bool
+	fixed    *c20Witness // replay of a witness of the Lean file instead of a generated case
+}
+
+// c20Witness: the concrete points named in lean/Req/Props/C20.lean (the example next to
+// digest_accepted, the excluded_* theorems, comma_usually_errors), replayed on the real client.
+type c20Witness struct {
+	raw        string
+	is         c20Issued
+	user, pass string
+	uri        string
+	tags       []string
+}
+
+func c20Ptr(s string) *string { return &s }
+
+var c20Witnesses = []c20Witness{
+	{raw: `Digest realm="r", nonce="n", qop="auth", algorithm=SHA-256-sess, opaque="o", userhash=true`,
+		is:   c20Issued{realm: "r", nonce: "n", qops: []string{"auth"}, algorithm: c20Ptr("SHA-256-sess"), opaque: c20Ptr("o"), userhash: true},
+		user: "Mufasa", pass: "Circle of Life", uri: "/dir/index.html?a=b"},
+	{raw: `Digest realm="r", nonce="n", algorithm=MD5`, is: c20Issued{realm: "r", nonce: "n", algorithm: c20Ptr("MD5")}, user: `a"b`, pass: "pw", uri: "/"},
+	{raw: `Digest realm="x, opaque=y", nonce="n", algorithm=MD5`, is: c20Issued{realm: "x, opaque=y", nonce: "n", algorithm: c20Ptr("MD5")}, user: "u", pass: "pw", uri: "/", tags: []string{"quoted-comma"}},
+	{raw: `Digest realm= "x", nonce="n", algorithm=MD5`, is: c20Issued{realm: "x", nonce: "n", algorithm: c20Ptr("MD5")}, user: "u", pass: "pw", uri: "/", tags: []string{"bws"}},
+	{raw: `Digest realm="a\"b", nonce="n", algorithm=MD5`, is: c20Issued{realm: `a"b`, nonce: "n", algorithm: c20Ptr("MD5")}, user: "u", pass: "pw", uri: "/", tags: []string{"quoted-pair"}},
+	{raw: `Digest realm="r", nonce="n", qop="auth,auth-int"`, is: c20Issued{realm: "r", nonce: "n", qops: []string{"auth", "auth-int"}}, user: "u", pass: "pw", uri: "/", tags: []string{"quoted-comma"}},
+	{raw: `Digest realm="r", nonce="n", qop="auth, auth-int"`, is: c20Issued{realm: "r", nonce: "n", qops: []string{"auth", "auth-int"}}, user: "u", pass: "pw", uri: "/", tags: []string{"quoted-comma"}},
+	{raw: `Digest realm="Acme, Inc", nonce="n"`, is: c20Issued{realm: "Acme, Inc", nonce: "n"}, user: "u", pass: "pw", uri: "/", tags: []string{"quoted-comma"}},
 }
 
 // c20Exchange generates one case, runs it on the real client and records the verdicts.
@@ -193,11 +219,24 @@ func c20Exchange(t *testing.T, s *verifh.Session, r *rand.Rand, o *c20Origin, mo
 	}
 	for i, v := range sc.www {
 		// what a header field can carry: no CR/LF, no leading/trailing OWS
-		v = strings.NewReplacer("\r", " ", "\n", " ", "\x00", " ").Replace(v)
-		sc.www[i] = strings.Trim(v, " \t")
+		b := []byte(v)
+		for j, ch := range b {
+			if ch < 32 && ch != '\t' || ch == 127 {
+				b[j] = ' '
+			}
+		}
+		sc.www[i] = strings.Trim(string(b), " \t")
 	}
 	if sc.firstStatus == 401 && gen != nil && r.Intn(8) == 0 {
 		sc.rejectSecond = true
+	}
+	if w := mode.fixed; w != nil {
+		g := c20Chal{is: w.is, raw: w.raw, tags: map[string]bool{}}
+		for _, tg := range w.tags {
+			g.tags[tg] = true
+		}
+		gen = &g
+		sc = c20Script{firstStatus: 401, www: []string{w.raw}, firstBody: "denied"}
 	}
 	// ---- the call
 	user, ku := c20Text(r, r.Intn(12) == 0)
@@ -208,6 +247,9 @@ func c20Exchange(t *testing.T, s *verifh.Session, r *rand.Rand, o *c20Origin, mo
 	method := verifh.Pick(r, []string{"GET", "GET", "POST", "POST", "PUT", "PATCH", "DELETE", "HEAD", "OPTIONS"})
 	uri := verifh.Pick(r, c20URIs)
 	kind := verifh.Pick(r, []string{"none", "none", "bytes", "bytes", "string", "json", "form", "ordered-form", "multipart", "getbody-func", "stream", "client-form", "big"})
+	if w := mode.fixed; w != nil {
+		user, ku, pass, method, uri, kind = w.user, "witness", w.pass, "GET", w.uri, "none"
+	}
 	c := C().SetTimeout(20 * time.Second)
 	if r.Intn(3) == 0 {
 		c.DisableAllowGetMethodPayload()
@@ -544,8 +586,11 @@ func TestVerif_C20_handle(t *testing.T) {
 	r := s.Rand()
 	cnt, count := c20Counter(s)
 	known := map[string]int{}
-	n := verifh.N(500, 12000)
+	n := verifh.N(1500, 30000)
 	must := []string{"outcome:untouched", "outcome:resend", "outcome:err bad-challenge", "outcome:err alg", "outcome:err qop", "status:0", "status:401", "status:200", "verifier-accepted", "body:multipart", "body:stream", "body:big"}
+	for i := range c20Witnesses {
+		c20Exchange(t, s, r, o, c20Run{identity: true, fixed: &c20Witnesses[i]}, known, count)
+	}
 	for i := 0; i < n || !c20All(cnt, must); i++ {
 		if i > 20*n {
 			t.Fatalf("declared buckets not reached: %v", cnt)
@@ -572,13 +617,16 @@ func TestVerif_C20_e2e(t *testing.T) {
 	known := map[string]int{}
 	for _, h2 := range []bool{false, true} {
 		o := c20NewOrigin(h2)
-		n := verifh.N(300, 8000)
+		n := verifh.N(900, 20000)
 		if h2 {
-			n = verifh.N(200, 4000)
+			n = verifh.N(600, 10000)
 		}
 		tagc := func(k string) { count(k); count(map[bool]string{false: "h1:", true: "h2:"}[h2] + k) }
 		key := map[bool]string{false: "h1:", true: "h2:"}[h2]
 		must := []string{key + "outcome:untouched", key + "outcome:resend", key + "verifier-accepted", key + "outcome:err bad-challenge"}
+		for i := range c20Witnesses {
+			c20Exchange(t, s, r, o, c20Run{h2: h2, fixed: &c20Witnesses[i]}, known, tagc)
+		}
 		for i := 0; i < n || !c20All(cnt, must); i++ {
 			if i > 20*n {
 				t.Fatalf("declared buckets not reached: %v", cnt)
@@ -608,7 +656,7 @@ func TestVerif_C20_wire(t *testing.T) {
 		} else {
 			c.EnableForceHTTP1()
 		}
-		n := verifh.N(150, 4000)
+		n := verifh.N(400, 8000)
 		for i := 0; i < n; i++ {
 			caseID := o.begin(c20Script{firstStatus: 200, firstBody: "ok"})
 			u, _ := c20Text(r, true)
